@@ -74,9 +74,12 @@ def record_key(case, obs, what):
 
 def check_record_case(case, seed):
     """-> list of (key, text, payload) for one printed case."""
-    obs, problems = G.run_record_case(case, seed)
-    out = []
     base = {"direction": "replay", "layer": "record", "case": case, "case_seed": seed}
+    try:
+        obs, problems = G.run_record_case(case, seed)
+    except Exception as ex:  # noqa: BLE001 -- whatever the real classes left behind must end in a verdict, not a crash
+        return [(record_key(case, None, "uninterpretable-" + type(ex).__name__), "record case could not be completed: %s: %s" % (type(ex).__name__, ex), dict(base))]
+    out = []
     if obs is None:
         return [(k, t, dict(base)) for k, t in problems]
     exp = {"recs": [{"head": r["head"], "tail": r["tail"], "len": r["len"], "framelen": r["framelen"], "calls": r["calls"]}
@@ -197,6 +200,7 @@ def run_formats(rep, thorough, seed, results):
     loca_note = None
     sampled = False
     stage_counts = {}
+    timeouts, skipped = {}, {}
     if "fmt_mc" in results:
         _tlc_verdict(rep, "exhaustive:" + results["fmt_mc"].cfgname, results["fmt_mc"])
         if results["fmt_mc"].coverage.get("EmitRecord", (0, 0))[1] == 0:
@@ -212,9 +216,14 @@ def run_formats(rep, thorough, seed, results):
             per_fmt[fmt] = per_fmt.get(fmt, 0) + 1
             for t, cnt in case["counts"].items():
                 (tags_seen if cnt > 0 else tags_absent).setdefault(fmt, set()).add(t)
+            if timeouts.get(fmt, 0) >= 2:
+                skipped[fmt] = skipped.get(fmt, 0) + 1       # every case would cost CASE_TIMEOUT: the verdict is already recorded
+                continue
             n += 1
             for key, text, payload in check_format_case(case, seed * 7919 + i):
                 rep.violation(key, text, payload)
+                if ":timeout:" in key:
+                    timeouts[fmt] = timeouts.get(fmt, 0) + 1
             for enc, st in check_format_case.stages.items():
                 # how far each case got: a (known) finding stops only its own case and encoding, every other
                 # enumerated header still runs all stages; the counts are measured, per format / class / encoding
@@ -239,6 +248,8 @@ def run_formats(rep, thorough, seed, results):
             raise tlc.MachineryError("vacuous: %s records %s never present in any enumerated header" % (fmt, never))
     if loca_note:
         rep.note(loca_note)
+    for fmt, k in skipped.items():
+        rep.note("%s: %d cases skipped after two cases ran into the %g s watchdog (reported as timeout violations)" % (fmt, k, G.CASE_TIMEOUT))
     rep.extra["format_cases"] = per_fmt
     rep.extra["format_stage_reached"] = stage_counts
     # vacuity of the stages: every format must have cases that ran all stages (write, frames, read, read-back,
@@ -392,6 +403,20 @@ def mutants():
         ("dlayxs-binary-nkfam-count", "DLAYXS 2D: NKFAM list read/written with one entry too many only when reading (binary fails at the "
          "call site of the listed ASCII-only finding)", ("DLAYXS",),
          lambda: _patch(dlayxs.DlayxsIO, "_rwSpectra", 'self.metadata["nkfam"], "int", len(self.dlayxs)\n', 'self.metadata["nkfam"], "int", len(self.dlayxs) + (1 if self.metadata["nkfam"] is None else 0)\n')),
+        # ---- second seeding round
+        ("nhflux-odd-moments-slice", "NHFLUX 3D: the odd-parity block is sliced [:, nMoms:] instead of [:, nMom:] (VARIANT, nMoms # nMom)", ("NHFLUX",),
+         lambda: _patch(nhflux.NhfluxStream, "_rwFluxMoments3D", [("contents[:, nMom:].T", 'contents[:, self._metadata["nMoms"]:].T'),
+                                                                  ("contents[:, nMom:] = result.T", 'contents[:, self._metadata["nMoms"]:] = result.T')], None)),
+        ("writer-close-skips-empty-record", "BinaryRecordWriter.close returns early for an empty record: no leading / trailing count", R + ("trace", "RZFLUX", "PWDINT", "LABELS"),
+         lambda: _patch(cccc.BinaryRecordWriter, "close", "def close(self):\n", "def close(self):\n    if not self.data:\n        self.data = None\n        return\n")),
+        ("pmatrx-filewide-order-loop", "PMATRX: production-matrix loop bounded by the file-wide order instead of the nuclide's own", ("PMATRX",),
+         lambda: _patch(pmatrx._PmatrxNuclideIO, "_rwCellAveragedProductionMatrix", 'self._metadata["maxScatteringOrder"]', 'self._pmatrixIO._metadata["maxScatteringOrder"]')),
+        ("nhflux-factory-adjoint-variant", "nhflux.getNhfluxReader(adjoint, variant) returns NhfluxStreamVariant for adjoint VARIANT files", ("NHFLUX",),
+         lambda: _patch(nhflux, "getNhfluxReader", "reader = NafluxStreamVariant if variantFlag else NafluxStream", "reader = NhfluxStreamVariant if variantFlag else NafluxStream")),
+        ("rtflux-factory-swapped", "rtflux.getFDFluxReader returns the real-flux stream for adjoint files", ("RTFLUX",),
+         lambda: _patch(rtflux, "getFDFluxReader", "if adjointFlag:", "if not adjointFlag:")),
+        ("pmatrx-loop-bound-free-integer", "PMATRX: production-matrix loop bounded by an unrelated header integer (~1e7 iterations): the watchdog must turn it into a verdict", ("PMATRX",),
+         lambda: _patch(pmatrx._PmatrxNuclideIO, "_rwCellAveragedProductionMatrix", 'self._metadata["maxScatteringOrder"]', 'abs(self._pmatrixIO._metadata["maxNumberOfRegions"])')),
         ("pmatrx-gamma-heating-flag", "PMATRX: gamma-heating record keyed on hasNeutronHeatingAndDamage", ("PMATRX",),
          lambda: _patch(pmatrx._PmatrxNuclideIO, "_rwGammaHeating", 'if not self._metadata["hasGammaHeating"]:', 'if not self._metadata["hasNeutronHeatingAndDamage"]:')),
     ]
@@ -414,15 +439,26 @@ def selftest():
             if what == "record":
                 for i, c in enumerate(rec_cases):
                     ks.update(k for k, _, _ in check_record_case(c, i))
+            elif what == "trace":
+                traces = G.record_traces(30, 4, 12, 0)
+                bad, _ = tracecheck.validate("CcccRecord_trace", "CcccRecord_trace.cfg", MODDIR, traces, timeout=600)
+                for b in bad:
+                    ev, k = b["trace"]["ev"], b["matched"]
+                    a = (ev[k] if k < len(ev) else {}).get("a", {})
+                    ks.add("trace:record:%s:%s%s" % (b["trace"].get("enc"), a.get("n0", "?"), (":" + a["k"]) if "k" in a else ""))
             else:
                 for i, c in enumerate(fmt_cases[what][:400]):
                     try:
-                        ks.update(k for k, _, _ in check_format_case(c, i))
+                        found = check_format_case(c, i)
                     except RuntimeError as ex:
                         ks.add("%s:machinery:%s" % (what, str(ex)[:60]))
+                        continue
+                    ks.update(k for k, _, _ in found)
+                    if any(":timeout:" in k for k, _, _ in found):
+                        break       # as in run(): the verdict is recorded, further cases would each cost the watchdog time
         return ks
 
-    base = keys_for(("record",) + FORMATS)
+    base = keys_for(("record", "trace") + FORMATS)
     print("baseline keys on the unmutated tree: %d" % len(base))
     missed = 0
     for name, desc, scope, apply in mutants():
@@ -437,7 +473,7 @@ def selftest():
         else:
             missed += 1
             print("MISSED  %-36s %s" % (name, desc))
-    after = keys_for(("record",) + FORMATS)
+    after = keys_for(("record", "trace") + FORMATS)
     if after != base:
         raise tlc.MachineryError("mutants were not undone cleanly: %s" % sorted(after ^ base))
     print("selftest: %d mutants, %d missed" % (len(mutants()), missed))
